@@ -42,9 +42,10 @@ const (
 	kH        // deliver header
 	kI        // InvalidateBlock
 	kR        // ReconsiderBlock
+	kX        // clean shutdown (utxo cache flushed, database closed) and restart
 )
 
-var kindName = []string{"D", "H", "I", "R"}
+var kindName = []string{"D", "H", "I", "R", "X"}
 
 func evCode(kind, node int) int { return kind*16 + node }
 func evKind(e int) int          { return e / 16 }
@@ -140,6 +141,8 @@ type sys struct {
 	hdrSent   []bool
 	manual    []bool // manually invalidated
 	nIR       int
+	nReopen   int
+	noteBase  []int // active chain at the last restart: where the notification stream starts
 	nRedeliv  int
 	prevTip   int
 	err       string
@@ -227,6 +230,23 @@ func (s *sys) apply(e int) {
 		err := s.c.BC.ReconsiderBlock(&s.w.blk[i].Hash)
 		s.lastErr = err
 		s.manual[i] = false
+	case kX:
+		// what the operator said (invalidate / reconsider) and what the node
+		// learnt survives a restart: the reference state is not touched
+		s.nReopen++
+		if err := s.c.CleanClose(); err != nil {
+			s.fail("clean close: %v", err)
+			return
+		}
+		if err := s.c.Reopen(); err != nil {
+			s.fail("restart: %v", err)
+			return
+		}
+		// notifications start afresh on top of the chain that was active
+		s.noteBase = nil
+		for n := s.tip(); n > 0; n = s.w.parent[n] {
+			s.noteBase = append([]int{n}, s.noteBase...)
+		}
 	}
 }
 
@@ -249,6 +269,9 @@ type bounds struct {
 	// twoBranch restricts the trees to at most two leaves; connectOnly restricts
 	// invalid labels to the connect-time kind; exactN skips smaller trees.
 	twoBranch, connectOnly, exactN bool
+	// maxReopen: clean restarts per history (only with parentsFirst and without
+	// headers: the orphan pool and unflushed header entries are memory only)
+	maxReopen int
 }
 
 func (s *sys) enabled(b bounds) []int {
@@ -272,6 +295,9 @@ func (s *sys) enabled(b bounds) []int {
 			}
 		}
 	}
+	if s.nReopen < b.maxReopen && s.lastEv >= 0 && evKind(s.lastEv) != kX {
+		out = append(out, evCode(kX, 0))
+	}
 	if s.nIR < b.maxIR {
 		for i := 1; i < n; i++ {
 			// invalidate: any block the node knows (in the index)
@@ -294,7 +320,7 @@ func (s *sys) canon() string {
 		return "ERR:" + s.err
 	}
 	var sb strings.Builder
-	fmt.Fprintf(&sb, "tip=%d ir=%d rd=%d|", s.tip(), s.nIR, s.nRedeliv)
+	fmt.Fprintf(&sb, "tip=%d ir=%d rd=%d x=%d|", s.tip(), s.nIR, s.nRedeliv, s.nReopen)
 	for i := 1; i < len(s.w.parent); i++ {
 		st, known := s.c.BC.VerifNodeStatus(&s.w.blk[i].Hash)
 		orphan := s.c.BC.IsKnownOrphan(&s.w.blk[i].Hash)
@@ -499,7 +525,7 @@ func (s *sys) check() string {
 		}
 	}
 	// (5) notification stream replays to the active chain
-	stack := []int{0}
+	stack := append([]int{0}, s.noteBase...)
 	for _, nt := range s.c.Notes {
 		n, ok := w.byHash[nt.Hash]
 		if !ok {
@@ -762,6 +788,7 @@ func main() {
 			{3, 1, bounds{headers: true, maxIR: 2, maxRedeli: 0}, "BC: headers + invalidate/reconsider, N<=3"},
 			{5, 1, bounds{maxIR: 1, parentsFirst: true, connectOnly: true, exactN: true}, "C5: N=5, <=1 connect-invalid block, parents-first deliveries + 1 invalidate/reconsider"},
 			{6, 1, bounds{maxIR: 1, parentsFirst: true, connectOnly: true, twoBranch: true, exactN: true}, "C6: N=6 two-branch trees, <=1 connect-invalid block, parents-first deliveries + 1 invalidate/reconsider"},
+			{4, 1, bounds{maxIR: 2, parentsFirst: true, maxReopen: 1}, "CX: N<=4, <=1 invalid, parents-first block deliveries + <=2 invalidate/reconsider + 1 clean restart"},
 		}
 		r.SetBudget(45 * time.Minute)
 	} else {
@@ -771,6 +798,7 @@ func main() {
 			{3, 1, bounds{headers: false, maxIR: 2, maxRedeli: 0}, "C: blocks + <=2 invalidate/reconsider, N<=3"},
 			{5, 1, bounds{maxIR: 1, parentsFirst: true, connectOnly: true, twoBranch: true, exactN: true}, "C5: N=5 two-branch trees, <=1 connect-invalid block, parents-first deliveries + 1 invalidate/reconsider"},
 			{3, 0, bounds{headers: true, maxIR: 2, parentsFirst: true, exactN: true}, "BC3: N=3 all-valid trees, headers + parents-first block deliveries + <=2 invalidate/reconsider"},
+			{3, 1, bounds{maxIR: 2, parentsFirst: true, maxReopen: 1}, "CX: N<=3, <=1 invalid, parents-first block deliveries + <=2 invalidate/reconsider + 1 clean restart"},
 		}
 		r.SetBudget(5 * time.Minute)
 	}
